@@ -501,6 +501,8 @@ class CompositeFrontend(ConstrainedFrontend):
 
             for v in s.variables:
                 merged._solvers[v] = s
+            # whether the shared child is satisfiable is not known to the merged solver
+            merged._unchecked_solvers.add(s)
 
         noncommon_solvers = [[s for s in cs._solver_list if id(s) not in common_ids] for cs in [self, *others]]
 
